@@ -5,6 +5,8 @@ import (
 	"io"
 	"net"
 	"time"
+
+	"github.com/segmentio/kafka-go/compress"
 )
 
 // C02: the Reader/Conn path delivers exactly the partition's records from its position, in order.
@@ -252,4 +254,103 @@ func vhFetchOffsetOfLastRequest(w []byte) (int64, bool) {
 	}
 	r.i32()
 	return r.i64(), true
+}
+
+// Compressed record sets on the Conn path. The third-party codecs are not interpreted: a stand-in stream codec
+// (vhBlockCodec, c17.go: one block per record/message) is installed in compress.Codecs for the path, so that the
+// library's own logic around a decompressor is executed: the nested reader stack, relative inner offsets of
+// compressed v1 message sets (wrapper offset = offset of the last inner message), skipping of records below the
+// requested position (a compressed batch is always returned whole), byte accounting.
+//   kind 0: one compressed v2 batch of nrec records
+//   kind 1: a magic-1 wrapper message holding nrec inner messages with relative offsets (optionally one gap)
+//   kind 2: a magic-0 wrapper message holding nrec inner messages with absolute offsets
+func VH_C02_FetchCompressed(version, kind, nrec int) {
+	vhConcreteClock(true)
+	compress.Codecs[1] = vhBlockCodec{}
+	first := vhInt64("log_fragment_start")
+	vhAssume(vhAll(first >= 0, first < 1<<40))
+	var stored []vhStored
+	var wire []byte
+	const ts = int64(1600000000000)
+	switch kind {
+	case 0:
+		var payload []byte
+		for i := 0; i < nrec; i++ {
+			k, v := vhBytes("key", 1), vhBytes("value", 2)
+			e := vhEncRecord(vhRec{offsetDelta: int64(i), key: k, value: v})
+			payload = append(append(payload, byte(len(e))), e...)
+			stored = append(stored, vhStored{offset: first + int64(i), ts: ts, key: k, value: v})
+		}
+		wire = vhEncBatchV2Raw(first, 1, int32(nrec-1), ts, ts, int32(nrec), payload)
+	default:
+		magic := int8(1)
+		if kind == 2 {
+			magic = 0
+		}
+		var payload []byte
+		rel := int64(0)
+		for i := 0; i < nrec; i++ {
+			if i > 0 {
+				rel += 1 + int64(vhChoose("gap", 2)) // compaction may leave a gap inside the set
+			}
+			k, v := vhBytes("key", 1), vhBytes("value", 2)
+			inner := rel
+			if kind == 2 {
+				inner = first + rel // magic 0: inner offsets are absolute
+			}
+			e := vhEncMessage(inner, magic, 0, ts, k, v)
+			payload = append(append(payload, byte(len(e))), e...)
+			sts := ts
+			if magic == 0 {
+				sts = 0
+			}
+			stored = append(stored, vhStored{offset: first + rel, ts: sts, key: k, value: v})
+		}
+		wire = vhEncMessage(first+rel, magic, 1, ts, nil, payload)
+	}
+	last := stored[len(stored)-1].offset
+	o := vhInt64("position")
+	vhAssume(vhAll(o >= first, o <= last))
+	f1 := vhApiVersionsFrame(1, []vhApiRange{{int16(fetch), 0, int16(version)}, {int16(listOffsets), 0, 1}})
+	f2 := vhFetchResponse(2, version, 0, "t", 0, 0, last+10, wire)
+	fc := &vhFakeConn{data: append(append([]byte{}, f1...), f2...)}
+	c := NewConnWith(fc, ConnConfig{Topic: "t", Partition: 0, ClientID: "vh"})
+	_, serr := c.Seek(o, SeekAbsolute|SeekDontCheck)
+	vhAssert(serr == nil, "seek-ok")
+	b := c.ReadBatchWith(ReadBatchConfig{MinBytes: 1, MaxBytes: 100000})
+	var got []Message
+	var lastErr error
+	for i := 0; i < nrec+2; i++ {
+		m, err := b.ReadMessage()
+		if err != nil {
+			lastErr = err
+			break
+		}
+		got = append(got, m)
+	}
+	cerr := b.Close()
+	vhAssert(lastErr == io.EOF, "compressed-batch-ends-with-EOF-after-the-last-record")
+	vhAssert(cerr == nil, "compressed-close-ok")
+	var want []vhStored
+	for _, s := range stored {
+		if s.offset >= o {
+			want = append(want, s)
+		}
+	}
+	vhAssert(len(got) == len(want), "compressed-delivers-exactly-the-stored-records-at-or-after-the-position")
+	for i := range want {
+		if i >= len(got) {
+			break
+		}
+		g := got[i]
+		vhAssert(g.Offset == want[i].offset, "compressed-absolute-offsets-in-order")
+		vhAssert(vhAll(vhBytesEq(g.Key, want[i].key), vhBytesEq(g.Value, want[i].value)), "compressed-key-and-value")
+		if kind != 2 {
+			vhAssert(g.Time.Unix()*1000+int64(g.Time.Nanosecond())/1000000 == want[i].ts, "compressed-timestamp")
+		}
+	}
+	no, _ := c.Offset()
+	vhAssert(no == last+1, "compressed-position-moves-past-the-last-record")
+	vhAssert(!fc.closed, "connection-kept-after-a-complete-response")
+	vhReach("c02-fetch-compressed")
 }
